@@ -413,7 +413,10 @@ def execute(tape, r, fetches, user, pw, plan, files, seg_mode=None, vary_latency
                 except Exception as e:
                     out['error'] = 'OTHER:' + type(e).__name__
                     out['error_msg'] = repr(e)[:200]
-                out['body'] = f.getvalue()
+                try:
+                    out['body'] = f.getvalue()
+                except ValueError:
+                    out['body'] = b''       # the listing parser's TextIOWrapper closed the buffer
                 return out
 
             @asyncio.coroutine
